@@ -42,6 +42,8 @@ Inductive op :=
 | OReplaceCh (a b max from : N)
 | OReplaceS (rm wm : sarg) (max from : N)
 | OUnflatten (bytes : list N)
+| OSetAt (i ch : N)                      (* s[i] = ch through the non-const operator[] (valid index only) *)
+| OShiftInt (z : Z) | OShiftBool (b : bool)   (* operator<<(int), operator<<(bool) *)
 (* queries *)
 | OCharAt (i : N)
 | OIndexOfCh (ch from : N) | OIndexOfS (a : sarg) (from : N) | OIndexOfC (c : carg) (from : N)
@@ -53,6 +55,7 @@ Inductive op :=
 | OIndexOfSI (a : sarg) (from : N) | OLastIndexOfSI (a : sarg) (from : N)
 | OIndexOfChI (ch from : N) | OLastIndexOfChI (ch from : N)
 | OParseNumSuffix (def : N) | OStartsWithNumber (neg : bool)
+| OEqualsCh (ch : N) | OEqualsChI (ch : N) | OStartsChI (ch : N) | OEndsChI (ch : N)
 | OFlatten
 (* producers: the result is a new String; the subject is unchanged *)
 | OCopy | OCopyPre (extra : N)
@@ -68,6 +71,9 @@ Inductive op :=
 | OWithoutSuffixCh (ch max : N) | OWithoutPrefixCh (ch max : N)
 | OWithoutNumSuffix
 | OPlusS (a : sarg)
+| OWithSuffixCh (ch : N) | OWithPrefixCh (ch : N)
+| OWithoutSuffixSI (a : sarg) (max : N) | OWithoutPrefixSI (a : sarg) (max : N)
+| OWithoutSuffixChI (ch max : N) | OWithoutPrefixChI (ch max : N)
 (* s = <producer>(...) : the result is move-assigned to the subject *)
 | OAssign (o : op).
 
@@ -383,6 +389,18 @@ Fixpoint without_suffix_ch_loop (fuel : nat) (r : str1) (ch max : N) : str1 :=
   | O => r
   | S f => if (0 <? max) && ends_with (abs r) [ch] then without_suffix_ch_loop f (trunc_chars r 1) ch (max - 1) else r
   end.
+Fixpoint without_suffix_nc_loop (fuel : nat) (r : str1) (suf : list N) (max : N) : str1 :=
+  match fuel with
+  | O => r
+  | S f => if (0 <? max) && ends_with_nocase (abs r) suf
+           then without_suffix_nc_loop f (trunc_chars r (lenN suf)) suf (max - 1) else r
+  end.
+Fixpoint without_prefix_nc_loop (fuel : nat) (r : str1) (pre : list N) (max : N) : str1 :=
+  match fuel with
+  | O => r
+  | S f => if (0 <? max) && starts_with_nocase (abs r) pre
+           then without_prefix_nc_loop f (ctor_sub (src_of r) (lenN pre) NOLIMIT) pre (max - 1) else r
+  end.
 (* WithoutNumericSuffix: ret-- while the last character is a digit *)
 Fixpoint strip_digits_loop (fuel : nat) (r : str1) : str1 :=
   match fuel with
@@ -448,6 +466,22 @@ Definition produce (s : str1) (o : op) : option out1 :=
   | OWithoutNumSuffix =>
       Some (R1StrNat (strip_digits_loop (S (length (abs s))) (ctor_copy me)) (snd (l0_without_num_suffix (abs s))))
   | OPlusS a => Some (R1Str (plus_s s (sa a)))
+  | OWithSuffixCh ch => Some (R1Str (if (0 <? slen s) && (nthN (slen s - 1) (abs s) =? ch) then ctor_copy me
+                                     else with_insert_ch s NOLIMIT ch 1))
+  | OWithPrefixCh ch => Some (R1Str (if nthN 0 (abs s) =? ch then ctor_copy me else with_insert_ch s 0 ch 1))
+  | OWithoutSuffixSI a max =>
+      let suf := src_bytes (sa a) in
+      Some (R1Str (if (lenN suf =? 0) || negb (ends_with_nocase (abs s) suf) then ctor_copy me
+                   else without_suffix_nc_loop (S (length (abs s))) (ctor_copy me) suf max))
+  | OWithoutPrefixSI a max =>
+      let pre := src_bytes (sa a) in
+      Some (R1Str (if (lenN pre =? 0) || negb (starts_with_nocase (abs s) pre) then ctor_copy me
+                   else without_prefix_nc_loop (S (length (abs s))) (ctor_copy me) pre max))
+  | OWithoutSuffixChI ch max =>
+      Some (R1Str (if negb (ends_with_nocase (abs s) [ch]) then ctor_copy me
+                   else without_suffix_nc_loop (S (length (abs s))) (ctor_copy me) [ch] max))
+  | OWithoutPrefixChI ch max =>
+      Some (R1Str (ctor_sub me (lenN (abs s) - lenN (strip_ch_prefix_nc (abs s) ch max)) NOLIMIT))
   | _ => None
   end.
 
@@ -477,6 +511,10 @@ Definition query (l : list N) (self : list N) (o : op) : option out0 :=
   | OLastIndexOfChI ch from => Some (R0Int (l0_last_index_of_ch_nocase l ch from))
   | OParseNumSuffix d => Some (R0Nat (l0_parse_num_suffix l d))
   | OStartsWithNumber neg => Some (R0Bool (l0_starts_with_number l neg))
+  | OEqualsCh ch => Some (R0Bool ((lenN l =? 1) && (nthN 0 l =? ch)))
+  | OEqualsChI ch => Some (R0Bool ((lenN l =? 1) && (to_lower (nthN 0 l) =? to_lower ch)))
+  | OStartsChI ch => Some (R0Bool ((0 <? lenN l) && (to_lower (nthN 0 l) =? to_lower ch)))
+  | OEndsChI ch => Some (R0Bool ((0 <? lenN l) && (to_lower (nthN (lenN l - 1) l) =? to_lower ch)))
   | _ => None
   end.
 
@@ -513,6 +551,9 @@ Definition mutate (s : str1) (o : op) : option (str1 * out1) :=
   | OReplaceCh a b m f => let '(s', k) := replace_ch1 s a b m f in Some (s', R1Nat k)
   | OReplaceS rm wm m f => let '(s', k) := replace_s1 s (sa rm) (sa wm) m f in Some (s', R1Int k)
   | OUnflatten bytes => let '(e, s') := unflatten1 s bytes in Some (s', R1St e)
+  | OSetAt i ch => Some (if i <? slen s then map_content s (fun x => upd x i ch) else s, R1None)
+  | OShiftInt z => Some (append_c s (CLit (dec_of_Z z)), R1None)
+  | OShiftBool b => Some (append_c s (CLit (if b then [116;114;117;101] else [102;97;108;115;101])), R1None)
   | OIndexOfC c from => Some (s, R1Int (l0_index_of (abs s) (cbytes s c) from))
   | OFlatten => Some (s, R1Bytes (flatten1 s))
   | _ => None
@@ -577,6 +618,13 @@ Definition produce0 (l : list N) (o : op) : option out0 :=
   | OWithoutPrefixCh ch max => Some (R0Str (l0_without_prefix_ch l ch max))
   | OWithoutNumSuffix => let '(r, v) := l0_without_num_suffix l in Some (R0StrNat r v)
   | OPlusS a => Some (R0Str (l ++ sb a))
+  | OWithSuffixCh ch => Some (R0Str (if (0 <? lenN l) && (nthN (lenN l - 1) l =? ch) then l
+                                     else if ch =? 0 then l else l ++ [ch]))
+  | OWithPrefixCh ch => Some (R0Str (if nthN 0 l =? ch then l else if ch =? 0 then l else ch :: l))
+  | OWithoutSuffixSI a max => Some (R0Str (l0_without_suffix_nc l (sb a) max))
+  | OWithoutPrefixSI a max => Some (R0Str (l0_without_prefix_nc l (sb a) max))
+  | OWithoutSuffixChI ch max => Some (R0Str (strip_suffix_nc_fuel (S (length l)) l [ch] max))
+  | OWithoutPrefixChI ch max => Some (R0Str (strip_ch_prefix_nc l ch max))
   | _ => None
   end.
 
@@ -604,6 +652,9 @@ Definition mutate0 (l : list N) (o : op) : option (list N * out0) :=
   | OReplaceCh a b m f => let '(l', k) := l0_replace_ch l a b m f in Some (l', R0Nat k)
   | OReplaceS rm wm m f => let '(l', k) := l0_replace_sub l (sb rm) (sb wm) m f in Some (l', R0Int (Z.of_N k))
   | OUnflatten bytes => Some (if list_eqb (cstr bytes) bytes then (l, R0St StErr) else (cstr bytes, R0St StOk))
+  | OSetAt i ch => Some (if i <? lenN l then upd l i ch else l, R0None)
+  | OShiftInt z => Some (l ++ dec_of_Z z, R0None)
+  | OShiftBool b => Some (l ++ (if b then [116;114;117;101] else [102;97;108;115;101]), R0None)
   | OIndexOfC c from => Some (l, R0Int (l0_index_of l (cb c) from))
   | OFlatten => Some (l, R0Bytes (l ++ [0]))
   | _ => None
@@ -676,6 +727,7 @@ Fixpoint dealias (l : list N) (o : op) : op :=
   | OWithSuffixS a => OWithSuffixS (S a) | OWithPrefixS a => OWithPrefixS (S a)
   | OWithoutSuffixS a m => OWithoutSuffixS (S a) m | OWithoutPrefixS a m => OWithoutPrefixS (S a) m
   | OPlusS a => OPlusS (S a)
+  | OWithoutSuffixSI a m => OWithoutSuffixSI (S a) m | OWithoutPrefixSI a m => OWithoutPrefixSI (S a) m
   | OAssign o' => OAssign (dealias l o')
   | _ => o
   end.
